@@ -206,8 +206,9 @@ pub fn random_assignment(rng: &mut StdRng) -> Value {
     let label = ["none", "alpha", "beta", "rc"][rng.gen_range(0..4)];
     let (bts, bts_text) = instant(rng, 0.5);
     let (lts, lts_text) = instant(rng, 0.6);
-    let ncustom = rng.gen_range(0..3);
-    let keys = ["k", "a.b", "build_id"];
+    let ncustom = rng.gen_range(0..6);
+    // keys with characters that mean something in other path syntaxes (JSON pointer: / ~0 ~1) are plain keys here
+    let keys = crate::zmodel::CUSTOM_KEYS;
     let custom: Vec<Value> = (0..ncustom).map(|i| json!([to_cps(keys[i]), to_cps(TEXTS[rng.gen_range(0..TEXTS.len())])])).collect();
     let dirty4 = [NONE, 0, 0, 1][rng.gen_range(0..4)];
     json!({"v": {"epoch": num(rng, 0.6), "major": num(rng, 0.1), "minor": num(rng, 0.15), "patch": num(rng, 0.15),
